@@ -46,6 +46,8 @@ pub enum Pipe {
     LexFold,
     MacroEnum,
     MacroLex,
+    /// the lexical `parse_term` entry (bare terms only) + fold
+    LexTermFold,
 }
 impl Pipe {
     fn name(self) -> &'static str {
@@ -54,6 +56,7 @@ impl Pipe {
             Pipe::LexFold => "lexical-parser+fold",
             Pipe::MacroEnum => "enum_nse!-body",
             Pipe::MacroLex => "lexical_nse!-body+fold",
+            Pipe::LexTermFold => "lexical-parse_term+fold",
         }
     }
     fn from(s: &str) -> Pipe {
@@ -61,6 +64,7 @@ impl Pipe {
             "lexical-parser+fold" => Pipe::LexFold,
             "enum_nse!-body" => Pipe::MacroEnum,
             "lexical_nse!-body+fold" => Pipe::MacroLex,
+            "lexical-parse_term+fold" => Pipe::LexTermFold,
             _ => Pipe::Enum,
         }
     }
@@ -70,6 +74,7 @@ impl Pipe {
             Pipe::LexFold => lex_fold_parse(f, s),
             Pipe::MacroEnum => macro_body_enum(s),
             Pipe::MacroLex => macro_body_lexical(s),
+            Pipe::LexTermFold => lex_term_fold_parse(f, s),
         }
     }
 }
@@ -142,6 +147,11 @@ fn failure_with(f: Fmt, nd: &ND, spacing_kind: &str, seed: u64) -> Option<(Pipe,
             return Some((*p, text, w));
         }
     }
+    if matches!(nd, ND::Term(_)) {
+        if let Some(w) = text_failure(f, Pipe::LexTermFold, &text, &want) {
+            return Some((Pipe::LexTermFold, text, w));
+        }
+    }
     None
 }
 
@@ -163,7 +173,27 @@ fn inside_failure(f: Fmt, nd: &ND, seed: u64) -> Option<(Pipe, String, String)> 
     if rng.chance(1, 2) {
         text.push(*rng.pick(&WS_CHARS));
     }
+    if matches!(nd, ND::Term(_)) {
+        if let Some(w) = text_failure(f, Pipe::LexTermFold, &text, &want) {
+            return Some((Pipe::LexTermFold, text, w));
+        }
+    }
     text_failure(f, Pipe::LexFold, &text, &want).map(|w| (Pipe::LexFold, text, w))
+}
+
+/// one spacing case; a kind `after:<format>|<kind>` runs the case as the first work of a freshly
+/// spawned thread that has only done a little work in `<format>` before (`after:none|..`: nothing)
+fn case_failure(f: Fmt, nd: &ND, kind: &str, seed: u64) -> Option<(Pipe, String, String)> {
+    if let Some(rest) = kind.strip_prefix("after:") {
+        let (g, base) = rest.split_once('|')?;
+        let (g, base, nd2) = (Fmt::from_name(g), base.to_string(), nd.clone());
+        return on_fresh_thread(g, move || case_failure(f, &nd2, &base, seed)).flatten();
+    }
+    if kind == "inside-tokens" {
+        inside_failure(f, nd, seed)
+    } else {
+        failure_with(f, nd, kind, seed)
+    }
 }
 
 /// several spacings of one value as ONE parse_multi batch (compact first, so that anything the
@@ -218,20 +248,25 @@ fn check_multi(ctx: &mut Ctx, f: Fmt, nd: &ND, seed: u64) {
 
 fn check(ctx: &mut Ctx, f: Fmt, nd: &ND, kind: &str, seed: u64) {
     ctx.report.eval();
-    ctx.report.bump(&format!("spacing.{}", kind.split(':').next().unwrap_or(kind)));
+    ctx.report.bump(&format!("spacing.{}", if kind.starts_with("after:") { "first-work-of-a-fresh-thread" } else { kind.split(':').next().unwrap_or(kind) }));
     ctx.report.bump(&format!("format.{}", f.name()));
-    let r = if kind == "inside-tokens" { inside_failure(f, nd, seed) } else { failure_with(f, nd, kind, seed) };
+    // one case in 61 is repeated as the first work of a fresh thread that started in another format
+    if !kind.starts_with("after:") && seed % 61 == 0 {
+        let g = ["none", "ascii", "latex", "han"][((seed / 61) % 4) as usize];
+        check(ctx, f, nd, &format!("after:{}|{}", g, kind), seed);
+    }
+    let r = case_failure(f, nd, kind, seed);
     if let Some((pipe, text, why)) = r {
         let k2 = kind.to_string();
         let small = shrink_nd(
             nd,
             &mut |c| {
-                let r = if k2 == "inside-tokens" { inside_failure(f, c, seed) } else { failure_with(f, c, &k2, seed) };
+                let r = case_failure(f, c, &k2, seed);
                 matches!(r, Some((p, _, _)) if p == pipe)
             },
             250,
         );
-        let (_, text2, why2) = (if kind == "inside-tokens" { inside_failure(f, &small, seed) } else { failure_with(f, &small, kind, seed) }).unwrap_or((pipe, text, why));
+        let (_, text2, why2) = case_failure(f, &small, kind, seed).unwrap_or((pipe, text, why));
         // signature: pipeline + value + the *shape* of the spacing (kind) – the exact text is in the detail
         ctx.report.violate(
             format!("C09|{}|{}|{}|{}", f.name(), pipe.name(), small.canon(), kind.split(':').next().unwrap_or(kind)),
@@ -427,6 +462,14 @@ pub fn replay(ctx: &mut Ctx, d: &J) -> Option<()> {
         let seed = d.get("spacing_seed")?.as_i128()? as u64;
         if let Some((_, w)) = multi_failure(f, &nd, seed) {
             ctx.report.violate(format!("C09|{}|parse_multi|{}", f.name(), nd.canon()), w, d.clone());
+        }
+        return Some(());
+    }
+    if let Some(k) = jstr(d, "spacing").filter(|k| k.starts_with("after:")) {
+        let nd = nd_from_json(d.get("value")?)?;
+        let seed = d.get("spacing_seed")?.as_i128()? as u64;
+        if let Some((pipe, _, w)) = case_failure(f, &nd, &k, seed) {
+            ctx.report.violate(format!("C09|{}|{}|{}", f.name(), pipe.name(), nd.canon()), w, d.clone());
         }
         return Some(());
     }
